@@ -183,6 +183,11 @@ class Agent:
             pdu_rid = msg["scoped"]["pdu"]["request_id"]
         pdu = B.enc_pdu(0xA8, pdu_rid, 0, 0, [(USM_STATS[stat], ["counter32", 1])], self.form)
         scoped = B.enc_scoped(v3.engine_id, b"", pdu, self.form)
+        if auth_user is not None and v3.users[auth_user].get("encrypt_reports") and v3.users[auth_user].get("priv"):
+            # an engine that answers at the level of the request: authenticated AND encrypted report
+            out = {"msg_id": msg["msg_id"], "flags": 3, "user": auth_user, "context_engine_id": v3.engine_id, "context_name": b"",
+                   "tag": 0xA8, "request_id": pdu_rid, "a": 0, "b": 0, "varbinds": [(USM_STATS[stat], ["counter32", 1])]}
+            return self.build_v3_response(out, v3.users[auth_user])
         if auth_user is not None:
             auth = v3.users[auth_user]["auth"]
             dg = B.enc_v3_message(msg["msg_id"], 65507, 1, v3.engine_id, v3.boots, v3.clock(), auth_user, b"\x00" * 12, b"", scoped, self.form)
